@@ -7,6 +7,52 @@ import EkwVerif.Model.Ack
 namespace EkwVerif.Ack
 open EkwVerif.Frames
 
+/-! ### the two wire shapes of an acknowledged message (`dataFrames`, `bodyOf`) -/
+
+theorem bodyOf_inj {m m' : Nat} (h : bodyOf m = bodyOf m') : m = m' := (parsedBody_inj h).2
+
+theorem bodyOf_ne_ack (m i : Nat) : bodyOf m ≠ Parsed.msg (Msg.ack i) := parsedBody_ne_ack _ _ _
+
+@[simp] theorem isAck_bodyOf (sy : Option SynId) (m : Nat) : (⟨sy, bodyOf m⟩ : Delivery).isAck = false := by
+  simp only [bodyOf]; cases shapeOf m <;> rfl
+
+theorem shapeOf_plain {m : Nat} (h : m < dataBase) : shapeOf m = .plain := by
+  simp only [shapeOf]; rw [if_neg (by omega)]
+theorem shapeOf_data {m : Nat} (h : dataBase ≤ m) : shapeOf m = .data := by
+  simp only [shapeOf]; rw [if_pos h]
+
+/-- an ordinary message is returned as itself -/
+theorem bodyOf_plain {m : Nat} (h : m < dataBase) : bodyOf m = Parsed.msg (Msg.app m) := by
+  simp only [bodyOf, shapeOf_plain h, parsedBody]
+/-- a DatasetTransmitPayload is returned as header + value -/
+theorem bodyOf_data {m : Nat} (h : dataBase ≤ m) : bodyOf m = Parsed.payload m (Frame.msg (Msg.app m)) := by
+  simp only [bodyOf, shapeOf_data h, parsedBody]
+theorem dataFrames_plain (i a : Nat) {m : Nat} (h : m < dataBase) :
+    dataFrames i a m = [Frame.syn i a, Frame.msg (Msg.app m)] := by
+  simp only [dataFrames, bodyFrames, shapeOf_plain h, wireBody]
+theorem dataFrames_data (i a : Nat) {m : Nat} (h : dataBase ≤ m) :
+    dataFrames i a m = [Frame.syn i a, Frame.hdr m, Frame.msg (Msg.app m)] := by
+  simp only [dataFrames, bodyFrames, shapeOf_data h, wireBody]
+
+theorem dataFrames_inj {i a m i' a' m' : Nat} (h : dataFrames i a m = dataFrames i' a' m') :
+    i = i' ∧ a = a' ∧ m = m' := by
+  simp only [dataFrames, bodyFrames, List.cons.injEq, Frame.syn.injEq] at h
+  exact ⟨h.1.1, h.1.2, (wireBody_inj h.2).2⟩
+
+theorem dataFrames_ne_ack (i a m j : Nat) : dataFrames i a m ≠ ackFrames j := by
+  simp [dataFrames, ackFrames]
+
+theorem dataFrames_ne_local (i a m m' : Nat) : dataFrames i a m ≠ [Frame.msg (Msg.app m')] := by
+  simp [dataFrames]
+
+/-- `_recv_one` on a genuine acknowledged message, whatever its shape (closed form): always the
+Ack; a Syn seen before: nothing returned, nothing recorded; else recorded and returned -/
+theorem recvOne_dataFrames (acked : Nat → Nat → Bool) (i a m : Nat) :
+    recvOne acked (dataFrames i a m) =
+      if acked i a then { ack := some (a, i), res := .ok none }
+      else { ack := some (a, i), mark := some (i, a), res := .ok (some (bodyOf m)) } :=
+  recvOne_syn_wireBody acked i a (shapeOf m) m
+
 /-- What may be on the wire / in a receive queue addressed to `dst`. -/
 def PktOk (s : Sys) (dst : Nat) (fs : List Frame) : Prop :=
   (∃ a i m h, fs = dataFrames i a m ∧ (s.ep a).log i = some (h, m) ∧ (s.ep a).hosts0 h = some dst)
@@ -18,7 +64,7 @@ structure Inv (s : Sys) : Prop where
   wire_net : ∀ p ∈ s.net, PktOk s p.dst p.frames
   wire_inbox : ∀ b fs, fs ∈ (s.ep b).inbox → PktOk s b fs
   del_ok : ∀ b d i a, d ∈ (s.ep b).delivered → d.syn = some (i, a) →
-    (∃ h m, (s.ep a).log i = some (h, m) ∧ (s.ep a).hosts0 h = some b ∧ d.body = Parsed.msg (Msg.app m))
+    (∃ h m, (s.ep a).log i = some (h, m) ∧ (s.ep a).hosts0 h = some b ∧ d.body = bodyOf m)
       ∧ (s.ep b).acked i a = true
   del_nodup : ∀ b, ((s.ep b).delivered.filterMap (·.syn)).Nodup
   acked_del : ∀ b i a, (s.ep b).acked i a = true → ∃ d ∈ (s.ep b).delivered, d.syn = some (i, a)
@@ -394,22 +440,22 @@ theorem collect_empty {s : Sys} {b : Nat} (hin : (s.ep b).inbox = []) : collect 
 theorem collect_data_dup_ep {s : Sys} {b i a m : Nat} {rest : List (List Frame)}
     (hin : (s.ep b).inbox = dataFrames i a m :: rest) (hack : (s.ep b).acked i a = true) (c : Nat) :
     (collect s b).ep c = { s.ep c with inbox := if c = b then rest else (s.ep c).inbox } := by
-  simp only [collect, hin, recvOne, dataFrames, hack, if_true, setEp_ep]; split <;> simp_all
+  simp only [collect, hin, recvOne_dataFrames, hack, if_true, setEp_ep]; split <;> simp_all
 theorem collect_data_net {s : Sys} {b i a m : Nat} {rest : List (List Frame)}
     (hin : (s.ep b).inbox = dataFrames i a m :: rest) :
     (collect s b).net = s.net ++ [⟨a, ackFrames i⟩] := by
-  cases hack : (s.ep b).acked i a <;> simp [collect, hin, recvOne, dataFrames, hack]
+  cases hack : (s.ep b).acked i a <;> simp [collect, hin, recvOne_dataFrames, hack]
 
 theorem collect_data_new_ep {s : Sys} {b i a m : Nat} {rest : List (List Frame)}
     (hin : (s.ep b).inbox = dataFrames i a m :: rest) (hack : (s.ep b).acked i a = false) (c : Nat) :
     (collect s b).ep c = { s.ep c with
         inbox := if c = b then rest else (s.ep c).inbox
         acked := fun i' a' => if c = b ∧ i' = i ∧ a' = a then true else (s.ep c).acked i' a'
-        delivered := if c = b then (s.ep c).delivered ++ [⟨some (i, a), Parsed.msg (Msg.app m)⟩]
+        delivered := if c = b then (s.ep c).delivered ++ [⟨some (i, a), bodyOf m⟩]
                      else (s.ep c).delivered
-        batch := if c = b then (s.ep c).batch ++ [⟨some (i, a), Parsed.msg (Msg.app m)⟩]
+        batch := if c = b then (s.ep c).batch ++ [⟨some (i, a), bodyOf m⟩]
                  else (s.ep c).batch } := by
-  simp only [collect, hin, recvOne, dataFrames, hack, parseBody, Except.map, Delivery.isAck, setEp_ep]
+  simp only [collect, hin, recvOne_dataFrames, hack, setEp_ep]
   split
   · subst_vars; simp
   · simp_all
@@ -605,7 +651,7 @@ theorem collect_inv {s : Sys} (hi : Inv s) (b : Nat) : Inv (collect s b) := by
             split at hd
             · rcases List.mem_append.mp hd with hd | hd
               · exact hd
-              · simp at hd; subst hd; simp at hb
+              · simp at hd; subst hd; exact absurd hb (bodyOf_ne_ack _ _)
             · exact hd
           obtain ⟨c', hc'⟩ := h17 c d i' hold hb
           exact ⟨c', by grind⟩
